@@ -75,6 +75,11 @@ CLAIMED.update({
          "note": "Unambiguity and layout-insensitivity for ALL programs is a property of the grammar as interpreted by Lark, not of Python functions within reach of contracts: BOUNDED only. LarkTransformer.args / function and FunctionFactory.get_function are covered by the bounded tree comparison only.",
          "tech": BT},
 })
+CLAIMED.update({
+ "C19": {"cat": "other", "text": "Proved: LineMonitor.copy returns a different object equal on all eight counters; CsvPath.get_total_lines_and_headers asks the cacher for exactly the file being scanned, once. Frame scan over the whole package: the only writers of process-global state (class-level registries, warnings filter, os.environ, sys.path, chdir, random.seed, globals) are the four known idempotent ones. Bounded: 12 jobs over 5 files, each compared with the same job run first in a fresh process, across every ordered pair and 80 (thorough 1500) longer histories, cold vs warm cache, repeat runs, and mutation of the copies a cacher hands out.",
+         "note": "Equality with the fresh-process twin for ALL histories is a relation between two process histories: BOUNDED only. FileCacher.get_new_line_monitor/get_original_headers keep a dict of (object, list) tuples, outside the verifier's value model: bounded (clause callers_get_private_copies).",
+         "tech": BT},
+})
 NA_REASON = {}
 m = {
  "version": 1, "setup_cmd": "./setup.sh",
